@@ -8,6 +8,7 @@ import (
 	"strings"
 	"unicode"
 
+	"github.com/JunNishimura/Goit/internal/fsutil"
 	"github.com/JunNishimura/Goit/internal/sha"
 	"github.com/fatih/color"
 )
@@ -46,14 +47,8 @@ func (b *branch) loadHash(rootGoitPath string) error {
 
 func (b *branch) write(rootGoitPath string) error {
 	branchPath := filepath.Join(rootGoitPath, "refs", "heads", b.Name)
-	f, err := os.Create(branchPath)
-	if err != nil {
-		return fmt.Errorf("fail to create %s: %w", branchPath, err)
-	}
-	defer f.Close()
-
-	if _, err := f.WriteString(b.hash.String()); err != nil {
-		return fmt.Errorf("fail to write hash(%s): %w", b.hash, err)
+	if err := fsutil.WriteFileAtomic(rootGoitPath, branchPath, []byte(b.hash.String())); err != nil {
+		return fmt.Errorf("fail to write hash(%s) to %s: %w", b.hash, branchPath, err)
 	}
 
 	return nil
